@@ -63,6 +63,11 @@ def add_mip_obj(model: "Model") -> None:
         )
     exchange_rxns = find_boundary_types(model, "exchange")
     big_m = max(abs(b) for r in exchange_rxns for b in r.bounds)
+    if big_m == float("inf"):
+        raise ValueError(
+            "Minimizing the number of medium components needs finite bounds on "
+            "all exchange reactions (the largest bound is used as big-M)."
+        )
     prob = model.problem
     coefs = {}
     to_add = []
